@@ -137,6 +137,14 @@ def check_window(ctx):
         rng = q.top(b, "call:range") if isinstance(b, Rat) else None
         ok_rng = rng is not None and len(rng.args) == 1 and rng.args[0].equals(form.apply("getitem", [S("array.shape"), Rat.const(pos)]))
         ctx.ob("C15.2", site, ok_rng, "every %s is processed" % coord[:-1], loc=loc, msg="the loop iterates over %s" % b)
+        # every exit returns the array that the loop fills: no shortcut hands back unaggregated input for some window lengths
+        fdef = prog.func(site)
+        rets = [r_ for r_ in ast.walk(fdef) if isinstance(r_, ast.Return)]
+        short = [r_ for r_ in rets if r_.value is None or e["root"] not in {n_.id for n_ in ast.walk(r_.value) if isinstance(n_, ast.Name)}]
+        ctx.ob("C15.2", site, rets and not short, "every return hands back the aggregated array", loc=prog.loc(m, short[0]) if short else loc,
+               msg="%s returns %s on some path without going through the window loop: for those arguments the values are not replaced by the "
+                   "aggregator's statistic of the window (std/range/count/change of a one-element window are not the element itself)"
+                   % (fname, norm(short[0].value)[:60] if short and short[0].value is not None else "nothing"))
         v = e["value"]
         call = v.as_atom() if isinstance(v, Rat) else None
         ok_call = call is not None and call.func == "call:aggregator" and len(call.args) >= 1
@@ -180,7 +188,7 @@ def check_window(ctx):
                                "more than one %s leaves the window at once (irregular grid) values older than l-h stay in the window" % coord[:-1])
                 else:
                     raise AnalysisError("%s: window start %s not of the recognised form where(%s > start)[0][0]" % (site, str(first)[:160], coord))
-    ctx.floor("C15.2", 12)
+    ctx.floor("C15.2", 14)
 
 
 def _pointer_advanced_by_if(f):
